@@ -121,6 +121,32 @@ Theorem frame_object_clear_markings : forall W obj h h' r,
 Proof. exact frame_object_clear_l. Qed.
 Print Assumptions frame_object_clear_markings.
 
+Theorem frame_granular_remove_markings : forall W obj marking selectors h h' r,
+  granular_remove as_written W obj marking selectors h = (h', r) -> unchanged h h'.
+Proof. exact frame_granular_remove_l. Qed.
+Print Assumptions frame_granular_remove_markings.
+
+Theorem frame_granular_set_markings : forall W obj marking selectors h h' r,
+  granular_set as_written W obj marking selectors h = (h', r) -> unchanged h h'.
+Proof. exact frame_granular_set_l. Qed.
+Print Assumptions frame_granular_set_markings.
+
+Theorem frame_object_set_markings : forall W obj marking h h' r,
+  object_set as_written W obj marking h = (h', r) -> unchanged h h'.
+Proof. exact frame_object_set_l. Qed.
+Print Assumptions frame_object_set_markings.
+
+(* stix2.markings.{set,remove,add,clear,get}_markings / is_marked (and the _MarkingsMixin methods) *)
+Theorem frame_api_markings : forall W fn obj marking selectors h h' r,
+  api_markings as_written W fn obj marking selectors h = (h', r) -> unchanged h h'.
+Proof. exact frame_api_markings_l. Qed.
+Print Assumptions frame_api_markings.
+
+Theorem frame_remove_custom_stix : forall W obj h h' r,
+  remove_custom_stix as_written W obj h = (h', r) -> unchanged h h'.
+Proof. exact frame_remove_custom_l. Qed.
+Print Assumptions frame_remove_custom_stix.
+
 (* ---- bundle, factory ---- *)
 Theorem frame_bundle : forall W cls args kw h h' r,
   bundle as_written W cls args kw h = (h', r) -> unchanged h h'.
